@@ -142,7 +142,26 @@ def fanout3_raw(rng):
     return d1, d2
 
 
-SCHEMAS = ["indep", "cascade", "cascade_rev", "shared", "casc_shared", "feedback", "feedback_free", "fanout", "casc_extra", "sibling", "fanout_coupled", "fanout3"]
+SCHEMAS = ["indep", "cascade", "cascade_rev", "shared", "casc_shared", "feedback", "feedback_free", "fanout", "casc_extra", "sibling", "fanout_coupled", "fanout3",
+           "tlp_degenerate"]
+
+
+def degenerate_rows(rng, ys, extra, with_point=False):
+    """3-4 rows over the two variables ys (some also over `extra`) that all pass through one point, with a non-symmetric
+    coefficient matrix: an LP over them has a DEGENERATE optimum there, and only some pairs of active rows bound a given
+    combination of ys with non-negative multipliers (the shape tactic 5 has to get right)."""
+    px = {y: rng.choice([0, 0, 1, -1]) for y in ys}
+    rows = []
+    for _ in range(rng.randint(3, 4)):
+        co = {ys[0]: rng.choice([1, 2, 3, -1]), ys[1]: rng.choice([0, 1, 1, 2, -1])}
+        co = {v: c for v, c in co.items() if c}
+        if extra and rng.random() < 0.4:
+            co[extra] = rng.choice([-1, 1])
+        rows.append((co, sum(c * px.get(v, 0) for v, c in co.items())))
+    rng.shuffle(rows)
+    if with_point:
+        return rows, px
+    return rows
 
 
 def pair_raw(rng, schema, dyadic=0.0):
@@ -177,6 +196,13 @@ def pair_raw(rng, schema, dyadic=0.0):
         d2 = contract_raw(rng, ["y", "z"], ["p"], na=(1, 2), dyadic=dyadic, band=B)
     elif schema == "fanout3":
         d1, d2 = fanout3_raw(rng)
+    elif schema == "tlp_degenerate":
+        # the consumer's assumption needs a bound on a combination of BOTH producer outputs, and the producer's guarantees meet in one point
+        a = {v: rng.choice([1, 2, 3]) * rng.choice([1, 1, -1]) for v in ("y", "z")}
+        d1 = {"inv": ["i"], "outv": ["y", "z"], "a": [({"i": 1}, 0)] + ([({"i": -1}, rng.randint(0, 3))] if rng.random() < 0.5 else []),
+              "g": degenerate_rows(rng, ["y", "z"], "i")}
+        d2 = {"inv": ["y", "z", "s"], "outv": ["p"], "a": [(dict(a, s=rng.choice([-1, 1, 2])), rng.randint(2, 10))],
+              "g": [({"p": 1, "s": -1}, rng.randint(0, 2))]}
     elif schema == "fanout_coupled":
         # the producer's guarantees couple its two outputs (rows of a 2x2 system, dominant or not);
         # the consumer's guarantee needs a bound on a combination of both: tactics 1 / 3 with two internal variables
